@@ -22,13 +22,17 @@ Fiin(e) ==
       shapeOk == Len(tb) = 1024 + 96 * n
       \* digest as observed in record i
       ObsDigest(i) == SubSeq(tb, 1024 + 96 * (i - 1) + 73, 1024 + 96 * (i - 1) + 92)
-      es == [i \in 1..n |-> [size |-> Len(Content(e.files[i])), name |-> e.files[i].name,
-                             digest |-> Sha1(Content(e.files[i]))]]
+      \* the digest is computed here from the content; for the quick tier's one 2 MiB file (minutes of evaluation) the
+      \* driver carries the digest of an independent implementation instead (digest_ref), which this same run checks
+      \* against Sha1 on every smaller input; the thorough tier evaluates the big files here
+      SizeOf(f) == IF "pattern" \in DOMAIN f THEN f.pattern.n ELSE Len(f.content)
+      es == [i \in 1..n |-> [size |-> SizeOf(e.files[i]), name |-> e.files[i].name,
+                             digest |-> IF "digest_ref" \in DOMAIN e.files[i] THEN e.files[i].digest_ref ELSE Sha1(Content(e.files[i]))]]
       \* layout judged separately from the hash: records with the observed digests
       esObs == [i \in 1..n |-> [es[i] EXCEPT !.digest = ObsDigest(i)]]
   IN /\ Require(l, "fiin-size", Sig(e), shapeOk)
      /\ IF shapeOk
-        THEN /\ \A i \in 1..n : Expect(l, "sha1-digest", <<e.case, Len(Content(e.files[i])) % 64>>, es[i].digest, ObsDigest(i))
+        THEN /\ \A i \in 1..n : Expect(l, "sha1-digest", <<e.case, es[i].size % 64>>, es[i].digest, ObsDigest(i))
              /\ Require(l, "fiin-layout", Sig(e), tb = RenderFiin(esObs))
              /\ Require(l, "fiin-parse", Sig(e),
                         /\ e.res.v.parsed.some
